@@ -246,6 +246,105 @@ Section Facts.
     destruct (abort_restores d tag cs Hi) as [H1 [H2 [H3 [H4 _]]]]. auto.
   Qed.
 
+  (* ---------- C10 at the level of the whole datatype: importing meta and snapshot ---------- *)
+  Notation dt_import := (dt_import St call J k_export k_import).
+
+  Lemma import_inv d j i : wf_id i -> RbInv (dt_import d j i).
+  Proof. intros Hw. split; [exact Hw|]. unfold Datatype.dt_import, Datatype.replay. cbn. rewrite import_export. reflexivity. Qed.
+
+  (* what an operation can see of a datatype: its state and its operation id *)
+  Definition same_face (a b : dty) : Prop := d_snap a = d_snap b /\ d_oid a = d_oid b.
+
+  Lemma local_step_face a b c : same_face a b ->
+    let '(a', oa, ra) := local_step a c in let '(b', ob, rb) := local_step b c in
+    same_face a' b' /\ oa = ob /\ ra = rb.
+  Proof.
+    intros [E1 E2]. unfold Datatype.local_step. rewrite E1, E2. destruct (k_validate (d_snap b) c); [|repeat split; assumption].
+    destruct (k_local (d_snap b) c (opid_next (d_oid b))); repeat split; reflexivity.
+  Qed.
+
+  Lemma tx_body_face cs : forall a b, same_face a b ->
+    let '(a', opsa, entsa, rsa) := tx_body a cs in let '(b', opsb, entsb, rsb) := tx_body b cs in
+    same_face a' b' /\ opsa = opsb /\ entsa = entsb /\ rsa = rsb.
+  Proof.
+    induction cs as [|c cs IH]; intros a b F; cbn [Datatype.tx_body]; [repeat split; apply F|].
+    pose proof (local_step_face a b c F) as L. destruct (local_step a c) as [[a1 oa] ra], (local_step b c) as [[b1 ob] rb].
+    destruct L as [F1 [-> ->]]. pose proof (IH a1 b1 F1) as T.
+    destruct (tx_body a1 cs) as [[[a2 opsa] entsa] rsa], (tx_body b1 cs) as [[[b2 opsb] entsb] rsb].
+    destruct T as [F2 [-> [-> ->]]]. destruct ob; repeat split; apply F2.
+  Qed.
+
+  Lemma dstep_face a b e : RbInv a -> RbInv b -> same_face a b ->
+    match dstep a e, dstep b e with
+    | Some a', Some b' => same_face a' b'
+    | None, None => True
+    | _, _ => False
+    end.
+  Proof.
+    intros [_ Ra] [_ Rb] F. pose proof F as [E1 E2]. destruct e as [c|tag cs fail|o|c]; cbn [dstep].
+    - unfold Datatype.local_call. pose proof (local_step_face a b c F) as L.
+      destruct (local_step a c) as [[a1 oa] ra], (local_step b c) as [[b1 ob] rb]. destruct L as [[F1 F2] [-> ->]].
+      destruct ob; destruct rb; cbn; try exact I; split; assumption.
+    - unfold Datatype.transaction.
+      assert (F0 : same_face (mkDt (d_snap a) (opid_next (d_oid a)) (d_buf a) (d_cp a) (d_rb_snap a) (d_rb_oid a) (d_rb_ops a))
+                             (mkDt (d_snap b) (opid_next (d_oid b)) (d_buf b) (d_cp b) (d_rb_snap b) (d_rb_oid b) (d_rb_ops b)))
+        by (split; cbn; congruence).
+      pose proof (tx_body_face cs _ _ F0) as T.
+      destruct (tx_body (mkDt (d_snap a) _ _ _ _ _ _) cs) as [[[a2 opsa] entsa] rsa], (tx_body (mkDt (d_snap b) _ _ _ _ _ _) cs) as [[[b2 opsb] entsb] rsb].
+      destruct T as [[F1 F2] [-> [-> ->]]]. destruct fail.
+      + rewrite Ra, Rb. cbn [orb]. split; cbn; assumption.
+      + cbn [orb]. destruct (no_panic rsb); [split; cbn; assumption|exact I].
+    - destruct (o_lam (op_id o) <? two64); [|exact I]. unfold Datatype.remote_op. split; cbn; congruence.
+    - split; cbn; assumption.
+  Qed.
+
+  (* C10: a datatype and a second one that shows the same state and operation id — in particular an instance restored
+     by importing the first one's meta and snapshot — go through ANY history of calls, transactions (committed or
+     aborted), received operations and checkpoint moves alike: the same calls panic or not, and after every step both
+     show the same state and operation id again *)
+  Theorem same_face_forever es : forall a b, RbInv a -> RbInv b -> same_face a b ->
+    match drun a es, drun b es with
+    | Some a', Some b' => same_face a' b'
+    | None, None => True
+    | _, _ => False
+    end.
+  Proof.
+    induction es as [|e es IH]; intros a b Ra Rb F; cbn [drun]; [exact F|].
+    pose proof (dstep_face a b e Ra Rb F) as S.
+    destruct (dstep a e) as [a1|] eqn:Ea, (dstep b e) as [b1|] eqn:Eb; try contradiction.
+    - apply IH; [exact (dstep_inv a e a1 Ra Ea)|exact (dstep_inv b e b1 Rb Eb)|exact S].
+    - exact I.
+  Qed.
+
+  Theorem restored_is_indistinguishable d fresh es :
+    RbInv d ->
+    let r := dt_import fresh (k_export (d_snap d)) (d_oid d) in
+    d_snap r = d_snap d /\ d_oid r = d_oid d /\
+    match drun d es, drun r es with
+    | Some d', Some r' => d_snap r' = d_snap d' /\ d_oid r' = d_oid d'
+    | None, None => True
+    | _, _ => False
+    end.
+  Proof.
+    intros Rd r. assert (F : same_face d r) by (split; cbn; [rewrite import_export; reflexivity|reflexivity]).
+    split; [symmetry; apply F|]. split; [reflexivity|].
+    pose proof (same_face_forever es d r Rd (import_inv fresh _ _ (proj1 Rd)) F) as S.
+    destruct (drun d es), (drun r es); try exact S. destruct S as [S1 S2]. split; congruence.
+  Qed.
+
+  (* ... at ANY point of ANY history: the datatype reached from creation by any events, exported there and imported into
+     any other instance *)
+  Theorem restored_is_indistinguishable_anywhere c es0 d fresh es :
+    drun (dt_create St call J k_init k_export c) es0 = Some d ->
+    let r := dt_import fresh (k_export (d_snap d)) (d_oid d) in
+    d_snap r = d_snap d /\ d_oid r = d_oid d /\
+    match drun d es, drun r es with
+    | Some d', Some r' => d_snap r' = d_snap d' /\ d_oid r' = d_oid d'
+    | None, None => True
+    | _, _ => False
+    end.
+  Proof. intros Hrun. apply restored_is_indistinguishable. exact (run_inv es0 _ _ (create_inv c) Hrun). Qed.
+
   (* ---------- C15: identifiers issued by a datatype ---------- *)
   (* consecutive identifiers: each is the Next of its predecessor *)
   Fixpoint id_chain (i : opid) (l : list op) : Prop :=
